@@ -126,7 +126,20 @@ pub fn exec180(input: &[u64]) -> Vec<u64> {
 // ------------------------------------------------------------------ generators
 const ALPHA: [char; 11] = ['<', '>', ';', ',', '"', '\\', '=', ' ', 'a', 'é', '\n'];
 
+/// code points that a truncating cast (`c as u8`, `c as u16`) turns into a structural character: the low byte (or the
+/// low 16 bits) is one of `< > ; , " \ =`, space, tab, CR, LF
+fn alias_chars() -> Vec<char> {
+    let mut v = Vec::new();
+    for s in [b'<', b'>', b';', b',', b'"', b'\\', b'=', b' ', b'\t', b'\r', b'\n'] {
+        for hi in [0x1u32, 0x4, 0x20, 0x21, 0xFF, 0x100, 0x1F6, 0x10FF] {
+            if let Some(c) = char::from_u32((hi << 8) | s as u32) { v.push(c); }
+        }
+    }
+    v
+}
+
 fn rand_value(r: &mut Rng, maxlen: u64) -> String {
+    if r.chance(1, 40) { let a = alias_chars(); let c = a[r.below(a.len() as u64) as usize]; return format!("{}{}{}", r.pick(&["", "a", "a b", "\""]), c, r.pick(&["", "b", " c", "\""])); }
     if r.chance(1, 25) { return r.pick(&["Sensor\r\n Index", "a\r\n\tb", "\r\n x", "x\r\n", "a=b=c", "k=\"v\"", "/q?u=1&v=2"]).to_string(); }
     let n = r.below(maxlen + 1);
     (0..n).map(|_| match r.below(10) { 0..=5 => r.pick(&ALPHA), 6 => r.pick(&['€', '𝄞', '\u{a0}', '\u{3000}', '\t', '\r']),
@@ -136,13 +149,13 @@ fn rand_value(r: &mut Rng, maxlen: u64) -> String {
 }
 fn rand_key(r: &mut Rng) -> String {
     // registered attribute names, so that one link repeats a name that a specification gives a meaning to
-    if r.chance(1, 4) { return r.pick(&["rel", "rt", "if", "anchor", "title", "rel"]).to_string(); }
+    if r.chance(1, 4) { return r.pick(&["rel", "rt", "if", "anchor", "title", "rel", "maxAge", "OIC.if", "T", "t"]).to_string(); }
     let n = r.below(4);
-    (0..n).map(|_| r.pick(&['k', 'e', 'y', '<', '>', '\\', 'é', '-', '1'])).collect()
+    (0..n).map(|_| r.pick(&['k', 'e', 'y', '<', '>', '\\', 'é', '-', '1', 'K', 'Z', 'A', '.', '\u{212a}', '\u{130}'])).collect()
 }
 fn rand_target(r: &mut Rng) -> String {
     let n = r.below(6);
-    (0..n).map(|_| r.pick(&['/', 'a', '<', ';', ',', '"', '\\', '=', ' ', 'é', '\n'])).collect()
+    (0..n).map(|_| r.pick(&['/', 'a', '<', ';', ',', '"', '\\', '=', ' ', 'é', '\n', 'A', 'Z', '\u{2122}', '\u{13c}'])).collect()
 }
 fn write_doc_desc(v: &mut Vec<u64>, nl: bool, links: &[(String, Vec<(String, u64, String, u64)>)]) {
     v.push(nl as u64); v.push(links.len() as u64);
@@ -187,6 +200,30 @@ pub fn gen160(tier: &str, r: &mut Rng, emit: &mut dyn FnMut(Vec<u64>)) {
             } }
         } }
     }
+    // code points whose low byte (or low 16 bits) is a structural character, in values, keys and targets, each
+    // followed by more attributes and another link (what a scanner that mistakes them would swallow)
+    for c in alias_chars() {
+        for (pre, suf) in [("", ""), ("a", "b"), ("Hue", " bridge")] { for kind in 0..2u64 {
+            let val = format!("{}{}{}", pre, c, suf);
+            let key_ok = !c.is_whitespace();
+            let links = vec![(format!("/x{}", c), vec![("k".to_string(), kind, val.clone(), 0), (if key_ok { format!("k{}y", c) } else { "ky".to_string() }, 1, "light".to_string(), 0), ("ct".to_string(), 2, String::new(), 50)]),
+                             ("/bill".to_string(), vec![("z".to_string(), kind, val.clone(), 0)]), ("/y".to_string(), vec![])];
+            let mut v = Vec::new(); write_doc_desc(&mut v, kind == 1, &links); emit(v);
+        } }
+    }
+    // long values with a multi-byte character at every alignment around the 64-, 128- and 256-byte marks, written
+    // with and without a character that needs escaping (so both unquoting paths are taken)
+    for ch in ['é', '€', '𝄞'] { for base in [64usize, 128, 256] { for i in (base - 6)..=(base + 2) { for esc in [false, true] {
+        let val = format!("{}{}{}tail", if esc { "\"" } else { "" }, "a".repeat(i - esc as usize), ch);
+        let links = vec![("/long".to_string(), vec![("title".to_string(), 1, val.clone(), 0), ("k".to_string(), 0, val, 0)])];
+        let mut v = Vec::new(); write_doc_desc(&mut v, false, &links); emit(v);
+    } } } }
+    for links in long_docs() { for nl in [false, true] { let mut v = Vec::new(); write_doc_desc(&mut v, nl, &links); emit(v); } }
+    // keys with ASCII capitals and letters whose case mappings are special (Kelvin sign, dotted capital I)
+    for key in ["maxAge", "X-Unit", "OIC.if", "T", "t", "\u{212a}", "\u{130}x", "ÀB"] { for kind in 0..4u64 {
+        let links = vec![("/k".to_string(), vec![(key.to_string(), kind, "Val".to_string(), 7), ("t".to_string(), kind, "v".to_string(), 7), ("T".to_string(), kind, "V".to_string(), 8)])];
+        let mut v = Vec::new(); write_doc_desc(&mut v, false, &links); emit(v);
+    } }
     for _ in 0..(if thorough { 200_000 } else { 8_000 }) {
         let mv = if r.chance(1, 10) { 40 } else { 6 };
         let (nl, links) = rand_doc(r, mv);
@@ -233,6 +270,22 @@ pub fn gen170(tier: &str, r: &mut Rng, emit: &mut dyn FnMut(Vec<u64>)) {
         }
         if idx.len() > vmax { break; }
     }
+    // code points that truncate to a structural character, inside and outside quoted strings, followed by more text
+    for c in alias_chars() {
+        for t in ["<a>;k=\"x{}y\";z=1,<b>;w", "<a{}>;k{}=v;z=\"q\",<b>", "<a>;k=x{}y;z,<b>;u=\"{}", "{}<a>;k=1", "<a>;k=\"\\{}\";z=2,<b>"] {
+            let s = t.replace("{}", &c.to_string());
+            let mut v = Vec::new(); wr_str(&mut v, &s); emit(v);
+        }
+    }
+    // long values with a multi-byte character at every alignment around the 64-, 128- and 256-byte marks: cleanly
+    // quoted, with an escape, unterminated, and with text after the closing quote
+    for ch in ['é', '€', '𝄞'] { for base in [64usize, 128, 256] { for i in (base - 6)..=(base + 2) {
+        for t in ["<l>;title=\"{}\"", "<l>;title=\"\\\"{}\";k=1", "<l>;title=\"{}", "<l>;title=\"{}\"x;k", "<l>;title={}"] {
+            let body = format!("{}{}tail", "a".repeat(i), ch);
+            let s = t.replace("{}", &body);
+            let mut v = Vec::new(); wr_str(&mut v, &s); emit(v);
+        }
+    } } }
     // random longer strings over a wider alphabet including 4-byte code points
     for _ in 0..(if thorough { 500_000 } else { 30_000 }) {
         let s = rand_value(r, 24);
@@ -249,17 +302,34 @@ pub fn gen170(tier: &str, r: &mut Rng, emit: &mut dyn FnMut(Vec<u64>)) {
     }
 }
 
+/// documents with long targets and long quoted values: a multi-byte character at every alignment around the 32- and
+/// 64-byte marks, and values long enough for a writer that batches its output to flush several times
+fn long_docs() -> Vec<Vec<(String, Vec<(String, u64, String, u64)>)>> {
+    let mut v = Vec::new();
+    for ch in ['é', '€', '𝄞'] { for base in [32usize, 64] { for i in (base - 5)..=(base + 1) {
+        v.push(vec![(format!("/{}{}/t", "p".repeat(i - 1), ch), vec![("k".to_string(), 1, format!("{}{}\"q\\", "v".repeat(i), ch), 0)]), ("/n".to_string(), vec![("z".to_string(), 0, "plain".to_string(), 0)])]);
+    } } }
+    for n in [54usize, 70, 100, 140] {
+        v.push(vec![("/a".to_string(), vec![("title".to_string(), 1, "Greenhouse \"north\" ".repeat(n / 19 + 1), 0), ("ct".to_string(), 2, String::new(), 40)]), ("/b".to_string(), vec![("k".to_string(), 0, "x y".to_string(), 0)])]);
+    }
+    v
+}
+
 pub fn gen180(tier: &str, r: &mut Rng, emit: &mut dyn FnMut(Vec<u64>)) {
     let thorough = tier == "thorough";
-    for _ in 0..(if thorough { 3_000 } else { 250 }) {
-        let (_, links) = rand_doc(r, 5);
+    let longs = long_docs();
+    let nlong = if thorough { longs.len() } else { longs.len() };
+    for i in 0..(nlong + if thorough { 3_000 } else { 250 }) {
+        let links = if i < nlong { longs[i].clone() } else { rand_doc(r, 5).1 };
         for nl in [false, true] {
             // the fault-free run fixes the number of write calls
             let d = Doc { nl, links: links.clone() };
             let mut sink = FaultSink { calls: 0, accepted: Vec::new(), k: u64::MAX, mode: 0 };
             let _ = write_doc(&mut sink, &d);
             let ncalls = sink.calls;
+            // long documents: every fault position, but one caller style per position (they have hundreds of calls)
             for k in 0..=ncalls { for mode in 0..6u64 {
+                if i < nlong && !thorough && mode / 2 != k % 3 { continue; }
                 let mut v = vec![k, mode]; write_doc_desc(&mut v, nl, &links); emit(v);
             } }
         }
